@@ -301,8 +301,38 @@ Fixpoint has_bad (fuel : nat) (s : sx) : bool :=
            end
   end.
 
+(* op 6: views over leaves with a ZERO-SIZED element type (dimension lengths up to usize::MAX in
+   O(1) memory; harness/src/c16/zst.rs): constructor outcome, shape and PRESENCE only - never an
+   element value, never an iteration.  (2 6 term probes), term = leaf / range / mask (from_all
+   forms) / reverse / stack / chain.  A leaf whose element count exceeds usize::MAX cannot exist. *)
+Fixpoint v_leaf_shapes (v : view) : list shape :=
+  match v with
+  | VTensor _ sh => [sh]
+  | VMatrix _ _ _ _ _ => []
+  | VRange v _ | VMask v _ | VIndex v _ | VExpand v _ | VRename v _ | VReverse v _
+  | VAccess v _ | VTranspose v _ | VWrap v => v_leaf_shapes v
+  | VStack vs _ _ | VChain vs _ => flat_map v_leaf_shapes vs
+  end.
+Definition c02_zst (v : view) (probes : list (list N)) : sx :=
+  if negb (forallb (fun sh => match checked_elements sh with Some _ => true | None => false end)
+                   (v_leaf_shapes v)) then bad_case else
+  match v_ctor v with
+  | Ok c =>
+      if forallb (fun p => Nat.eqb (length p) (length (c_shape c))) probes
+      then SL [SZ 0; SL [sshape (c_shape c);
+                         slist (fun p => SL [SZ 0; sopt (fun _ => SZ 1) (c_get c p)]) probes]]
+      else bad_case
+  | Err e => SL [SZ 1; e]
+  | Panic => SL [SZ 2]
+  end.
+
 Definition run_c02 (args : list sx) : sx :=
   match args with
+  | [SZ 6%Z; t; probes] =>
+      match dview 40 t, dlist didx probes with
+      | Some v, Some probes => c02_zst v probes
+      | _, _ => bad_case
+      end
   | [SZ 1%Z; t; probes; writes] | [SZ 2%Z; t; probes; writes] =>
       match dview 40 t, dlist didx probes, dlist (dpair didx dZ) writes with
       | Some v, Some probes, Some writes =>
